@@ -5,11 +5,12 @@
               function of its bit list only (`hashKey`), `toBytes` = zero-padded big-endian bytes.
   ALG layer : `Bits.__eq__` / `__ne__` (bits.py:299-318) through `Bits._create_from_bitstype`
               (bits.py:127-133) and `_setauto_no_length_or_offset` (bits.py:492-516), `BitStore.__eq__`
-              (bitstore.py:115: compares the raw `_bitarray`), `Bits.__hash__` (bits.py:470-482: whole value up to
-              T bits, otherwise `self[:A] + self[-B:]`; T = 2000, A = B = 800 in the source — PARAMETERS here,
-              the harness extracts the literals from the source on every run), `BitStore.tobytes`, `__len__`
-              honouring `modified_length`, `BitStore.frombuffer` (bitstore.py:61-79), the slicing the hash uses
-              (`getslice_withstep_msb0/_lsb0`, `offset_slice_indices_lsb0`, bitstore.py:10-38, 209-217),
+              (bitstore.py:115-116: compares the raw `_bitarray`), `Bits.__hash__` (bits.py:475-489: whole value up to
+              T bits, otherwise `self._absolute_slice(0, A) + self._absolute_slice(len(self) - B, len(self))`
+              — mode-independent since fix 42091e9; T = 2000, A = B = 800 in the source — PARAMETERS here, the
+              harness extracts the literals from the source on every run), `BitStore.tobytes`, `__len__`
+              honouring `modified_length`, `BitStore.frombuffer` (bitstore.py:63-81), the slicing the hash uses
+              (`Bits._absolute_slice` bits.py:1026-1034, `BitStore.getslice_msb0` bitstore.py:229-234),
               `Bits.__add__` (bits.py:200-215), `BitArray.__hash__ = None` (bitarray_.py:73), the ordering
               methods (bits.py:187-198).
 
@@ -40,19 +41,33 @@ def toBytes (s : Bits) : List Nat := toBytesAux s.length s
     value (trusted); so hashes are equal when keys are equal, and keys are what is compared. -/
 abbrev Key := List Nat × Nat
 
+/-- The last `B` bits, as `_absolute_slice(len - B, len)` delivers them: nothing for `B = 0` (start = end), the
+    last `B` bits for `B ≤ len` (always the case in the code: `len > T = 2000 ≥ 800 = B`); for `B > len` the
+    negative start wraps once more as a Python index (kept so that the SPEC holds for ALL parameter values). -/
+def absSuffix (B : Nat) (s : Bits) : Bits :=
+  if B = 0 then [] else if B ≤ s.length then s.drop (s.length - B) else s.drop (2 * s.length - B)
+
+/-- The bits the sampling branch reads, as a function of the bit list alone: first `A` bits then last `B` bits,
+    in either bit-numbering mode. -/
+def sample (A B : Nat) (s : Bits) : Bits := s.take A ++ absSuffix B s
+
+/-- SPEC hash key: a function of the bits only (not of class, pos, route, store layout or the lsb0 option). -/
+def hashKey (T A B : Nat) (s : Bits) : Key :=
+  if s.length ≤ T then (toBytes s, s.length) else (toBytes (sample A B s), s.length)
+
+/-! #### the sampling expression before fix 42091e9 (kept only for the documentation witness in Props/C13) -/
+
 /-- `s[-B:]` on a Python sequence (`s[-0:]` is the whole sequence). -/
 def pySuffix (B : Nat) (s : Bits) : Bits := if B = 0 then s else s.drop (s.length - B)
 
-/-- The bits the sampling branch reads, as a function of the bit list alone.
-    msb0: first `A` bits then last `B` bits.  lsb0: `self[:A]` is the LAST `A` bits and `self[-B:]` the FIRST `B`
-    bits (and they are concatenated in that order). -/
-def sample (lsb0 : Bool) (A B : Nat) (s : Bits) : Bits :=
+/-- What `self[:A] + self[-B:]` read: under lsb0 `self[:A]` is the LAST `A` bits and `self[-B:]` the FIRST `B`
+    bits, concatenated in that order. -/
+def sampleOld (lsb0 : Bool) (A B : Nat) (s : Bits) : Bits :=
   if lsb0 then s.drop (s.length - A) ++ (if B = 0 then s else s.take B)
   else s.take A ++ pySuffix B s
 
-/-- SPEC hash key: a function of the bits only (not of class, pos, route or store layout). -/
-def hashKey (T A B : Nat) (lsb0 : Bool) (s : Bits) : Key :=
-  if s.length ≤ T then (toBytes s, s.length) else (toBytes (sample lsb0 A B s), s.length)
+def hashKeyOld (T A B : Nat) (lsb0 : Bool) (s : Bits) : Key :=
+  if s.length ≤ T then (toBytes s, s.length) else (toBytes (sampleOld lsb0 A B s), s.length)
 
 /-- SPEC equality. -/
 def eqSpec (a b : Bits) : Bool := decide (a = b)
@@ -65,7 +80,7 @@ structure Store where
   modLen : Option Nat := none
   deriving Repr, DecidableEq
 
-/-- `BitStore.__len__` (bitstore.py:275). -/
+/-- `BitStore.__len__` (bitstore.py:283-284). -/
 def Store.len (s : Store) : Nat :=
   match s.modLen with
   | some m => m
@@ -76,23 +91,23 @@ def rawSlice (l : Bits) (start stop : Option Int) : Bits :=
   (l.drop (Py.sliceIndices start stop 1 l.length).1.toNat).take
     ((Py.sliceIndices start stop 1 l.length).2.1 - (Py.sliceIndices start stop 1 l.length).1).toNat
 
-/-- The logical content (`s.bin`): `getslice_msb0(None, None)` (bitstore.py:219-224). -/
+/-- The logical content (`s.bin`): `getslice_msb0(None, None)` (bitstore.py:229-234). -/
 def Store.bits (s : Store) : Bits :=
   match s.modLen with
   | some m => rawSlice s.raw (some (Py.sliceIndices none none 1 m).1) (some (Py.sliceIndices none none 1 m).2.1)
   | none => rawSlice s.raw none none
 
-/-- `BitStore.tobytes` (bitstore.py:84-87). -/
+/-- `BitStore.tobytes` (bitstore.py:86-89). -/
 def Store.tobytes (s : Store) : List Nat :=
   match s.modLen with
   | some m => toBytes (rawSlice s.raw none (some (m : Int)))
   | none => toBytes s.raw
 
-/-- `BitStore.__eq__` (bitstore.py:115): `self._bitarray == other._bitarray`
+/-- `BitStore.__eq__` (bitstore.py:115-116): `self._bitarray == other._bitarray`
     (bitarray equality: same length, same bit at every index). -/
 def Store.eq (a b : Store) : Bool := decide (a.raw = b.raw)
 
-/-- `BitStore(bitarray)` / `_copy()` (bitstore.py:46-50, 198-200): a fresh store around a copy of the bitarray. -/
+/-- `BitStore(bitarray)` / `_copy()` (bitstore.py:46-52, 206-208): a fresh store around a copy of the bitarray. -/
 def Store.copyRaw (s : Store) : Store := { raw := s.raw, modLen := none }
 
 /-- `BitStore.frombytes`: big-endian bits of each byte. -/
@@ -125,27 +140,22 @@ instance (s : Store) : Decidable s.wf := by
     · exact isTrue (by intro m hm; cases hm; exact hk)
     · exact isFalse (by intro hh; exact hk (hh k rfl))
 
-/-! ### slicing as `Bits.__getitem__` does it (only step None is needed by `__hash__`) -/
+/-! ### slicing as `__hash__` does it -/
 
-/-- `getslice_withstep_msb0` (bitstore.py:209-212): indices are first normalised against `modified_length`. -/
-def Store.getSliceMsb0 (s : Store) (start stop : Option Int) : Store :=
+/-- `BitStore.getslice_msb0(start, stop)` (bitstore.py:229-234): indices are first normalised against
+    `modified_length`, then the raw bitarray is sliced. -/
+def Store.getsliceMsb0 (s : Store) (start stop : Option Int) : Store :=
   match s.modLen with
   | some m =>
     { raw := rawSlice s.raw (some (Py.sliceIndices start stop 1 m).1) (some (Py.sliceIndices start stop 1 m).2.1) }
   | none => { raw := rawSlice s.raw start stop }
 
-/-- `getslice_withstep_lsb0` (bitstore.py:214-217) with `offset_slice_indices_lsb0` (bitstore.py:21-38) for a
-    key without step: `start, stop, step = key.indices(len)`; `last = start + ((stop-1-start)//step)*step`;
-    the raw slice is `[len-last-1 : len-start]`. -/
-def Store.getSliceLsb0 (s : Store) (start stop : Option Int) : Store :=
-  let n : Int := s.len
-  let st := (Py.sliceIndices start stop 1 s.len).1
-  let sp := (Py.sliceIndices start stop 1 s.len).2.1
-  let last := st + ((sp - 1 - st) / 1) * 1
-  { raw := rawSlice s.raw (some (n - last - 1)) (some (n - st)) }
-
-def Store.getSlice (lsb0 : Bool) (s : Store) (start stop : Option Int) : Store :=
-  if lsb0 then s.getSliceLsb0 start stop else s.getSliceMsb0 start stop
+/-- `Bits._absolute_slice(start, end)` (bits.py:1026-1034): msb0 numbering whatever the option says; an empty
+    object when `end == start`; `assert start < end` otherwise. -/
+def absoluteSlice (s : Store) (start stop : Int) : Except Err Store :=
+  if stop = start then .ok { raw := [] }
+  else if ¬ (start < stop) then .error (.internal "AssertionError")
+  else .ok (s.getsliceMsb0 (some start) (some stop))
 
 /-- `Bits.__add__` on two objects of the same class (bits.py:200-215), store level: copy the longer operand,
     add the other on the proper side. -/
@@ -297,15 +307,20 @@ def orderAlg (_a _b : Obj) : Except Err Bool := .error .type
 
 /-! ## ALG: `__hash__` -/
 
-/-- `Bits.__hash__` (bits.py:470-482) — what the built-in `hash` is applied to; `BitArray.__hash__ = None`
-    (bitarray_.py:73; `BitStream` inherits it before `Bits.__hash__` in its MRO) makes `hash()` a TypeError. -/
-def hashAlg (T A B : Nat) (lsb0 : Bool) (o : Obj) : Except Err Key :=
+/-- `Bits.__hash__` (bits.py:475-489) — what the built-in `hash` is applied to; `BitArray.__hash__ = None`
+    (bitarray_.py:73; `BitStream` inherits it before `Bits.__hash__` in its MRO) makes `hash()` a TypeError.
+    `_lsb0` is the value of `bitstring.options.lsb0` while `hash()` runs: since fix 42091e9 nothing on this path
+    (`len`, `tobytes`, `_absolute_slice` → `getslice_msb0`, `__add__`) dispatches on it, so the transcription does
+    not read it; the harness evaluates `hash()` under both settings for every hashable object. -/
+def hashAlg (T A B : Nat) (_lsb0 : Bool) (o : Obj) : Except Err Key :=
   if o.cls.isMutable then .error .type
   else if o.store.len ≤ T then .ok (o.store.tobytes, o.store.len)
   else
-    let x := o.store.getSlice lsb0 none (some (A : Int))           -- self[:800]
-    let y := o.store.getSlice lsb0 (some (-(B : Int))) none        -- self[-800:]
-    .ok ((x.add y).tobytes, o.store.len)
+    match absoluteSlice o.store 0 (A : Int),                                        -- _absolute_slice(0, 800)
+          absoluteSlice o.store ((o.store.len : Int) - (B : Int)) (o.store.len : Int) with   -- (len - 800, len)
+    | .ok x, .ok y => .ok ((x.add y).tobytes, o.store.len)
+    | .error e, _ => .error e
+    | _, .error e => .error e
 
 /-- `b in {a}` / `b in {a: v}`: both hashes are taken (TypeError for an unhashable object), then equal hashes
     and `a == b`. -/
